@@ -1,9 +1,9 @@
 """C07 share_placement: complete, respects read-only servers, maximal spread."""
 META = {
     "level": 'exploration',
-    "technique": 'runtime oracle on the real share_placement(): exhaustive enumeration of small layouts + seeded random layouts, judged by an independent Kuhn matching',
-    "text": 'Executes the real share_placement on every layout with <=4 servers x <=5 shares (thorough, complete; quick samples it) and on random layouts up to 20x30; an independent augmenting-path matching decides completeness, read-only respect and optimal spread. Exhaustive on the small bound, sampled beyond it.',
-    "note": 'Trusts the 15-line Kuhn matching model (self-tested) and that inputs are shaped as PeerSelector produces them (rw/ro disjoint, >=1 rw).',
+    "technique": 'runtime oracle on the real share_placement() (exhaustive small layouts + seeded random, judged by an independent Kuhn matching) and on real uploads through Tahoe2ServerSelector against writable / read-only / full / room-for-one-share servers with pre-existing shares',
+    "text": 'Executes the real share_placement on every layout with <=4 servers x <=5 shares (thorough, complete; quick samples it) and on random layouts up to 20x30; an independent augmenting-path matching decides completeness, read-only respect and optimal spread. Upload level (last sentence of the statement): 250 (quick) real uploads on an in-process grid whose servers are writable, read-only, full, have room for exactly one share (available space = the allocation size, +1, -1) or refuse every allocation, with pre-existing shares of the same file, all inside the 2N-server survey window; the same matching decides whether a happy layout was reachable, and an upload declared unhappy although it was is a violation. Exhaustive on the small placement bound, sampled beyond it and at upload level.',
+    "note": 'Trusts the 15-line Kuhn matching model (self-tested) and that placement inputs are shaped as PeerSelector produces them (rw/ro disjoint, >=1 rw). Two upload-level classes fail on the unchanged tree and are known findings (retry loop after refused allocations).',
 }
 import itertools
 from vf import env  # noqa
@@ -38,8 +38,148 @@ def classify(peers, ro, shares, held, result):
     return out
 
 
+SERVER_KINDS = ["rw", "rw", "rw", "ro", "full", "fits-one", "fits-one-plus-1", "allocate-always-fails"]
+
+
+def upload_part(ck):
+    """Upload level (last sentence of the statement): real Uploader / Tahoe2ServerSelector / share_placement / Encoder
+    against real storage servers that are writable, read-only, full, or have room for exactly one share, with
+    pre-existing shares of the same file; no server misbehaves except the kind that refuses every allocation.  Ground
+    truth: a happy layout is reachable iff the maximum matching (writable server - any share; other servers - the
+    shares they hold) reaches the threshold."""
+    import os
+    from vf.grid import VGrid
+    from vf import imm
+    from allmydata import uri
+    from allmydata.interfaces import UploadUnhappinessError, NoServersError
+    want = 250 if ck.tier == "quick" else 700
+    j = 0
+    done = 0
+    while done < want and not (done >= 60 and ck.out_of_time()):
+        j += 1
+        if not ck.mine(j):
+            continue
+        rng = ck.rng("upload", j)
+        k = rng.randint(1, 3)
+        n = rng.randint(k, min(k + 3, 6))
+        # the selector surveys at most 2*N servers (by design); keep every server inside that window so that
+        # "reachable" means reachable with the servers the uploader looks at
+        nservers = rng.randint(1, min(6, 2 * n))
+        happy = rng.randint(1, min(n, nservers))
+        segsize = rng.choice([64, 128])
+        data = imm.gen_data(rng, rng.choice([100, 200, 333]))
+        key = rng.randbytes(16)
+        # scratch upload: the share files of this (data, key, k, N) and the size the selector asks servers to reserve
+        g0 = VGrid(nservers=n, seed=rng.getrandbits(32), profile="fifo", keep_log=True)
+        try:
+            c0 = g0.make_client(k=k, happy=1, n=n, max_segment_size=segsize)
+            st0, res0 = g0.wait(c0.upload(imm.FixedKeyData(data, key)))
+            if st0 != "ok":
+                ck.observe("scratch-upload-failed")
+                continue
+            cap = res0.get_uri()
+            si = uri.from_string(cap).get_storage_index()
+            S = [r["args"][4] for r in g0.calls if r["method"] == "allocate_buckets"][0]
+            shares = {}
+            for (_vs, shnum, path) in g0.find_shares(si):
+                with open(path, "rb") as f:
+                    shares[shnum] = f.read()
+        finally:
+            g0.close()
+        kinds = [rng.choice(SERVER_KINDS) for _ in range(nservers)]
+        mode = rng.random()
+        if mode < .55:
+            # directed: exactly `happy` (or one fewer) usable servers, the others unusable
+            usable = set(rng.sample(range(nservers), happy if mode < .4 else happy - 1))
+            kinds = [rng.choice(["rw", "fits-one", "fits-one-plus-1"]) if s in usable
+                     else rng.choice(["ro", "full", "allocate-always-fails"]) for s in range(nservers)]
+        if os.environ.get("VF_C07_ONLY_RW_AND_REFUSING"):
+            kinds = [("allocate-always-fails" if kk == "allocate-always-fails" else "rw") for kk in kinds]
+            if "allocate-always-fails" not in kinds and len(kinds) > 1:
+                kinds[rng.randrange(len(kinds))] = "allocate-always-fails"
+        elif rng.random() < .3:
+            # refusing servers next to unlimited ones only
+            kinds = [("rw" if kk.startswith("fits-one") else kk) for kk in kinds]
+            if "allocate-always-fails" not in kinds and len(kinds) > 1:
+                kinds[rng.randrange(len(kinds))] = "allocate-always-fails"
+        dens = rng.choice([0, 0, .2, .5])
+        held = {s: sorted(h for h in range(n) if rng.random() < dens) for s in range(nservers)}
+        g = VGrid(nservers=nservers, seed=rng.getrandbits(32), profile=rng.choice(["fifo", "per-server-fifo", "free"]),
+                  keep_log=bool(os.environ.get("VF_C07_DEBUG")), readonly={s for s in range(nservers) if kinds[s] == "ro"})
+        try:
+            with ck.watchdog(180, "upload case %d" % j):
+                for s in range(nservers):
+                    vs = g.servers[s]
+                    for h in held[s]:
+                        d = vs.sharedir(si)
+                        os.makedirs(d, exist_ok=True)
+                        with open(os.path.join(d, "%d" % h), "wb") as f:
+                            f.write(shares[h])
+                    if kinds[s] == "full":
+                        vs.set_available_space(S - 1)
+                    elif kinds[s] == "fits-one":
+                        vs.set_available_space(S)
+                    elif kinds[s] == "fits-one-plus-1":
+                        vs.set_available_space(S + 1)
+                    elif kinds[s] == "allocate-always-fails":
+                        vs.add_fault("raise", method="allocate_buckets")
+                c = g.make_client(k=k, happy=happy, n=n, max_segment_size=segsize)
+                st, res = g.wait(c.upload(imm.FixedKeyData(data, key)))
+                writable = [s for s in range(nservers) if kinds[s] in ("rw", "fits-one", "fits-one-plus-1")]
+                edges = {s: (list(range(n)) if s in writable else held[s]) for s in range(nservers)}
+                reachable = max_matching(edges)
+                w = dict(case=j, k=k, n=n, happy=happy, kinds=kinds, held=held, allocated_size=S, reachable_happiness=reachable,
+                         status=st, error=(res.type.__name__ + ": " + str(res.value)[:300]) if st == "err" else None)
+                ck.mon("upload-happy-when-reachable")
+                if reachable >= happy:
+                    ck.hit("happy-layout-reachable")
+                    if any(kinds[s] in ("fits-one", "fits-one-plus-1") for s in writable):
+                        ck.hit("reachable-with-a-server-that-fits-exactly-one-share")
+                    limited = any(kk.startswith("fits-one") for kk in kinds)
+                    nref = kinds.count("allocate-always-fails")
+                    if st == "err" and res.check(UploadUnhappinessError, NoServersError):
+                        feat = ("two-or-more-servers-refuse-every-allocation" if nref >= 2 else
+                                "one-refusing-server-next-to-servers-with-room-for-one-share" if nref == 1 and limited else
+                                "one-server-refuses-every-allocation" if nref == 1 else
+                                "servers-with-room-for-exactly-one-share" if limited else "plain")
+                        if os.environ.get("VF_C07_DEBUG"):
+                            print("CASE", j, w)
+                            for r in g.calls:
+                                if r["method"] in ("allocate_buckets", "get_buckets"):
+                                    print("   ", r["server"], r["method"], r["args"][3] if r["method"] == "allocate_buckets"
+                                          else "", str(r["result"])[:120])
+                        ck.violation("upload-declared-unhappy-although-a-happy-layout-was-reachable/" + feat,
+                                     "happy=%d is reachable (maximum matching %d over servers %s, pre-existing shares %s) yet the "
+                                     "upload failed: %s" % (happy, reachable, kinds, held, w["error"]), w)
+                    elif st == "err":
+                        ck.observe("upload-failed-otherwise-although-reachable:" + res.type.__name__)
+                    elif st != "ok":
+                        ck.observe("upload-did-not-complete:" + st)
+                    else:
+                        ck.hit("upload-succeeded")
+                        if nref == 1 and not limited:
+                            ck.hit("upload-succeeded-around-one-refusing-server")
+                        if limited and not nref:
+                            ck.hit("upload-succeeded-with-servers-that-fit-exactly-one-share")
+                else:
+                    ck.hit("happy-layout-unreachable")
+                    if st == "ok":
+                        ck.violation("upload-succeeded-although-threshold-unreachable",
+                                     "happy=%d, maximum matching %d, yet the upload reported success" % (happy, reachable), w)
+                ck.case("upload", key=repr((k, n, happy, kinds, held)), nontrivial=any(kk != "rw" for kk in kinds) or any(
+                    held.values()), sample=w)
+                done += 1
+        finally:
+            g.close()
+    ck.require_monitor("upload-happy-when-reachable")
+    ck.require_reach("happy-layout-reachable", "happy-layout-unreachable", "upload-succeeded",
+                     "upload-succeeded-around-one-refusing-server",
+                     "upload-succeeded-with-servers-that-fit-exactly-one-share")
+
+
 def run(ck):
     from allmydata.immutable.happiness_upload import share_placement
+    upload_part(ck)
     ck.rule = ("inputs (rw peers>=1, ro peers, share set, peer->held shares) shaped like PeerSelector's; "
                "small layouts enumerated (<=3 rw+ro servers x <=4 shares quick, <=4 x <=5 thorough, sharded), "
                "plus seeded random up to 20 servers x 30 shares; distinct = distinct input tuple; "
